@@ -415,4 +415,25 @@ theorem scaled_int_cmp3ord : Cmp3Ord (fun a b : Int => (a - b) * 7) (fun a b => 
   congr_l x y z := by intro h; constructor <;> intro h' <;> omega
   congr_r x y z := by intro h; constructor <;> intro h' <;> omega
 
+/-! ### coherence from the leaves: `eq a b → cmp a b = 0` at the leaves gives it for sequences -/
+
+theorem seqCmpI_zero_of_eq {c : α → α → Int} {g : α → α → Bool}
+    (h : ∀ a b, g a b = true → c a b = 0) (l0 l1 : List α) (he : seqEqB g l0 l1 = true) :
+    seqCmpI c l0 l1 = 0 := by
+  induction l0 generalizing l1 with
+  | nil =>
+    cases l1 with
+    | nil => exact seqCmpI_nil_nil c
+    | cons b u => simp [seqEqB] at he
+  | cons a t ih =>
+    cases l1 with
+    | nil => simp [seqEqB] at he
+    | cons b u =>
+      simp only [seqEqB, List.length_cons, all2, Bool.and_eq_true, beq_iff_eq] at he
+      rw [seqCmpI_cons, h a b he.2.1]
+      simp only [ne_eq, not_true_eq_false, ite_false]
+      apply ih
+      simp only [seqEqB, Bool.and_eq_true, beq_iff_eq]
+      exact ⟨by omega, he.2.2⟩
+
 end XrayModel.Derive
